@@ -316,6 +316,8 @@ func runSearch(w *casefile.Writer, class string, sp *Spec, fracs fracmanager.Lis
 	}
 	if nhits > p.Limit {
 		w.Count(class + ":limit-cuts")
+	} else if hasDupIDs(sp.Layout) {
+		w.Count(class + ":duplicates-within-limit")
 	}
 	w.Count(fmt.Sprintf("%s:fpi=%d", class, sp.FPI))
 	if p.Asc {
